@@ -20,7 +20,7 @@ VARIABLES tid, l, nev
 tvars == <<vars, tid, l, nev>>
 
 Bind(s, st) ==
-    /\ scn' = s
+    /\ scn' = s /\ plan' = st.plan
     /\ rc2m' = st.rc2m /\ m2d' = st.m2d /\ d2m' = st.d2m /\ sys2d' = st.sys2d
     /\ d2n' = st.d2n /\ n2m' = st.n2m /\ m2n' = st.m2n /\ n2d' = st.n2d
     /\ rcbox' = st.rcbox /\ mtimers' = st.mtimers
@@ -33,7 +33,7 @@ Bind(s, st) ==
 
 EmptyScn == [targets |-> <<>>, ext |-> FALSE, preserve |-> FALSE]
 TInit == /\ tid = 0 /\ l = 0 /\ nev = 0
-         /\ InitFor(EmptyScn, {})
+         /\ InitFor(EmptyScn, {}) /\ plan = <<>>
 
 H(e) == e.a \in Hosts(scn)
 StepOf(e) == CASE e.ev = "MRecvStartEngine" -> MRecvStartEngine
@@ -60,6 +60,7 @@ StepOf(e) == CASE e.ev = "MRecvStartEngine" -> MRecvStartEngine
                [] e.ev = "RcStop" -> RcStop
                [] e.ev = "RcReset" -> RcReset(e.a)
                [] e.ev = "RcTeardown" -> RcTeardown
+               [] e.ev = "RcRestart" -> RcRestart
                [] e.ev = "RemoteJoins" -> RemoteJoins(e.a)
                [] e.ev = "RemoteLeaves" -> RemoteLeaves(e.a)
                [] e.ev = "NodeProcess" -> NodeProcess(e.a, e.b)
@@ -90,7 +91,8 @@ StartTrace ==
                           /\ nd' = [n \in NodeIds(tr.scn) |-> InitNd]
                           /\ ho' = [h \in Hosts(tr.scn) |-> 0]
                           /\ env'.up \subseteq RemoteTargets(tr.scn)
-                          /\ env' = [up |-> env'.up, left |-> {}, fault |-> "none", stopSent |-> FALSE, resets |-> 0, torn |-> FALSE, procs |-> 0]
+                          /\ env' = [up |-> env'.up, left |-> {}, fault |-> "none", stopSent |-> FALSE, resets |-> 0, torn |-> FALSE, procs |-> 0, cyc |-> 1]
+                          /\ plan' = tr.plan
                           /\ tr.init.other = 0
             IN IF initOk THEN TRUE ELSE PrintT(<<"V", tr.id, 0, "L2", {}>>)
     /\ tid' = tid + 1 /\ l' = 1 /\ nev' = nev
@@ -99,7 +101,7 @@ Consume ==
     /\ tid >= 1 /\ tid <= Len(Traces)
     /\ l <= Len(Traces[tid].events)
     /\ LET e == Traces[tid].events[l] IN
-         /\ Bind(scn, e.st)
+         /\ Bind(IF e.ev = "RcRestart" THEN e.scn ELSE scn, e.st)
          /\ act' = A(e.ev, e.a, e.b)
          /\ LET l1 == {c \in L1Clauses : ~Holds(c, e)}
                 l2 == StepOf(e) /\ e.st.other = 0
